@@ -26,7 +26,7 @@ def run_check(patch, prop):
     return c.returncode, kinds
 
 seeds = []
-for rnd, base in (("", inc), ("r2", os.path.join(inc, "r2")), ("r3", os.path.join(inc, "r3"))):
+for rnd, base in (("", inc), ("r2", os.path.join(inc, "r2")), ("r3", os.path.join(inc, "r3")), ("r4", os.path.join(inc, "r4"))):
     if not os.path.isdir(base):
         continue
     for prop in sorted(os.listdir(base)):
@@ -36,7 +36,7 @@ for rnd, base in (("", inc), ("r2", os.path.join(inc, "r2")), ("r3", os.path.joi
         for mut in sorted(os.listdir(d)):
             if mut.startswith("mut"):
                 seeds.append((prop, mut, rnd, os.path.join(d, mut)))
-for rnd in ("r2", "r3"):
+for rnd in ("r2", "r3", "r4"):
     lp = os.path.join(inc, "verify_%s.log" % rnd)
     for l in (open(lp) if os.path.exists(lp) else []):
         m = re.match(r"(C\d+/mut\d): demo_before=(\d+) demo_after=(\d+) suite=(\w+)", l)
@@ -68,9 +68,12 @@ def job_seed(prop, mut, rnd, src):
     dst = os.path.join(out, sid)
     os.makedirs(dst, exist_ok=True)
     patch = "patch_ported.diff" if os.path.exists(os.path.join(src, "patch_ported.diff")) else "patch.diff"
-    shutil.copy(os.path.join(src, patch), os.path.join(dst, "patch.diff"))
-    if patch != "patch.diff":
-        shutil.copy(os.path.join(src, "patch.diff"), os.path.join(dst, "patch_as_delivered.diff"))
+    if os.path.exists(os.path.join(dst, "patch_as_delivered.diff")) and patch == "patch.diff":
+        pass  # ported by hand onto later commits of /repo: seeded/<id>/patch.diff is the one that applies
+    else:
+        shutil.copy(os.path.join(src, patch), os.path.join(dst, "patch.diff"))
+        if patch != "patch.diff":
+            shutil.copy(os.path.join(src, "patch.diff"), os.path.join(dst, "patch_as_delivered.diff"))
     for f in ("demo.py", "notes.md"):
         if os.path.exists(os.path.join(src, f)):
             shutil.copy(os.path.join(src, f), os.path.join(dst, f))
